@@ -35,6 +35,11 @@ impl Prop for PDelete {
         pre_args(&input["pre"], &mut pre);
         // "TEST -o -delete": the action is reached where the test is false (and -delete still implies -depth)
         if input["pre"].get("neg").and_then(|n| n.as_bool()).unwrap_or(false) && !pre.is_empty() {
+            // "TEST -prune -o -delete": -delete implies -depth for the whole expression, also for a -prune written before
+            // it - which therefore changes nothing
+            if input.get("prune").and_then(|p| p.as_bool()).unwrap_or(false) {
+                pre.push("-prune".into());
+            }
             pre.push("-o".into());
         }
         // twin A: what -depth EXPR -print reports
@@ -123,6 +128,7 @@ impl Prop for PDelete {
             v["pre"]["neg"] = json!(true);
         }
         v["alt"] = json!(rng.chance(1, 2));
+        v["prune"] = json!(rng.chance(1, 2));
         // names that are not valid UTF-8 are removed like any other (the test before -delete then looks at types only)
         if rng.chance(1, 4) && add_raw_names(&mut v, rng) && v["pre"]["p"] == "name" {
             v["pre"] = json!({"p": "none"});
